@@ -30,7 +30,7 @@ def node_sexp(v):
         return "(c s %s (%s))" % (v[1], " ".join(node_sexp(c) for c in v[3]))
     if k == "grid":
         return "(c g %s (%s))" % (v[1], " ".join(["(b %s 1)" % v[1]] + ["(b %s 1)" % d for d, _ in v[4]]))
-    if k == "seq":
+    if k in ("seq", "lseq"):
         return "(c q %s (%s))" % (v[1], " ".join("(b %s 1)" % c[0] for c in v[3]))
     raise ValueError(k)
 
@@ -40,7 +40,7 @@ def spec_sexp(spec):
 
 
 def seq_ids(spec):
-    return [".".join(p) for p, v in F.leaves(spec) if v[0] == "seq"]
+    return [".".join(p) for p, v in F.leaves(spec) if F.is_seq(v)]
 
 
 def model_request(spec, url):
@@ -131,7 +131,10 @@ def traced_case(ctx, spec, url, kind, cases, tid=7):
     stages = sorted(set(e[0] for e in tr.events))
     ctx.count(("own", repr(spec), url), ok, tag="traced:%s:%s" % (kind, "ok" if ok else "error"),
               sample={"url": url, "stages": stages, "writes": len(tr.events)})
-    if line is not None:
+    # lazy sequences: the IterData data object clones its template and keeps filter/map/slice lists of its own
+    # (all allocated by the request, checked above); those internals are outside the model, so such datasets take
+    # part in the ownership, module-state, history and schedule oracles but not in the write-log correspondence
+    if line is not None and not any(v[0] == "lseq" for _, v in F.leaves(spec)):
         cases.append(("hs-log %d %s %s" % (tid, spec_sexp(spec), line), summary(tr.events),
                       {"url": url, "spec": spec}))
         cases.append(("hs-audit %d %s %s" % (tid, spec_sexp(spec), line), None, {"url": url, "audit": True}))
@@ -230,6 +233,8 @@ def explore(ctx, tier, search=False):
     # fixed dataset, fixed request list: traced one by one, then as histories in several orders
     for url in F.FIXED_REQUESTS:
         traced_case(ctx, F.FIXED_SPEC, url, "fixed", cases)
+    for url in F.LAZY_REQUESTS:
+        traced_case(ctx, F.LAZY_SPEC, url, "lazy", cases)
     n_specs = 36 if search else 12 if tier == "quick" else 120
     specs = [F.rand_spec(rng) for _ in range(n_specs)]
     for spec in specs:
@@ -244,6 +249,18 @@ def explore(ctx, tier, search=False):
     history_case(ctx, F.FIXED_SPEC, order[::-1], "fixed-all")
     for _ in range(6 if tier == "quick" else 60):
         history_case(ctx, F.FIXED_SPEC, [rng.choice(F.FIXED_REQUESTS) for _ in range(rng.randint(2, 12))], "fixed")
+    # lazy sequences (IterData; the served data object is itself a little pipeline: stream, filters, maps, slices):
+    # the whole list in both orders, every request three times in a row on one application, and random histories
+    # of >= 3 requests in which a request comes back after others
+    lazy = list(F.LAZY_REQUESTS)
+    history_case(ctx, F.LAZY_SPEC, lazy + lazy, "lazy-all-twice")
+    history_case(ctx, F.LAZY_SPEC, lazy[::-1], "lazy-all")
+    for url in lazy:
+        history_case(ctx, F.LAZY_SPEC, [url, url, url], "lazy-thrice")
+    for _ in range(8 if tier == "quick" else 80):
+        urls = [rng.choice(lazy) for _ in range(rng.randint(3, 10))]
+        urls += [urls[0], rng.choice(urls)]
+        history_case(ctx, F.LAZY_SPEC, urls, "lazy")
     for spec in specs:
         for _ in range(3 if tier == "quick" else 8):
             urls = [F.rand_request(rng, spec)[0] for _ in range(rng.randint(2, 12))]
